@@ -112,6 +112,25 @@ def run_layout_case(ctx, idx):
             extra.append({"description": "file basin", "format": "hdf5", "name": "origin",
                           "type": "file", "features": None, "mapping": "same",
                           "paths": [str(tmp / "origin.rtdc"), "origin.rtdc"]})
+        mapped = None
+        if 0.3 <= kind_basin < 0.55:
+            # file basin with its own (shorter or longer) event list, referred to through a
+            # mapping stored in the input
+            km = int(rng.integers(1, model["n"] + 4))
+            origin = gd.gen_model(rng, n=km, kinds={"scalar"}, hostile_logs=False)
+            origin["meta"] = {s: dict(kv) for s, kv in model["meta"].items()}
+            origin["meta"]["experiment"]["event count"] = km
+            origin["features"] = {"userdef7": rng.normal(size=km) * 1e3,
+                                  "userdef8": rng.uniform(0, 1, size=km)}
+            origin["logs"], origin["tables"] = {}, {}
+            gd.write_model(tmp / "origin_mapped.rtdc", origin)
+            mname = "basinmap1" if internal else "basinmap0"
+            mapped = (mname, rng.integers(0, km, model["n"]).astype(np.uint64))
+            extra.append({"description": "mapped file basin", "format": "hdf5",
+                          "name": "origin mapped", "type": "file",
+                          "features": ["userdef7", "userdef8"], "mapping": mname,
+                          "paths": [str(tmp / "origin_mapped.rtdc"), "origin_mapped.rtdc"]})
+            ctx.count("inputs_with_mapped_file_basin")
         pin = tmp / "input.rtdc"
         # the file's version chain: recorded with Shape-In, possibly processed by an old dclab
         # before the current one wrote it (only the last entry says who wrote the data)
@@ -123,6 +142,10 @@ def run_layout_case(ctx, idx):
                 model["features"]["volume"] = rng.uniform(100, 4000, model["n"])
         desc = h5layout.write_layout(pin, model, rng, version=vers,
                                      internal_basin=internal, extra_basins=extra, **opts)
+        if mapped is not None:
+            import h5py as _h5
+            with _h5.File(pin, "a") as _h:
+                _h["events"].create_dataset(mapped[0], data=mapped[1])
         case = {"model": gd.describe(model), "layout": desc["options"],
                 "storages": sorted(set(desc["storage"].values()))}
         nontriv = bool(set(desc["storage"].values()) - {"contiguous", "fixed-contiguous"}
@@ -148,6 +171,31 @@ def run_layout_case(ctx, idx):
             else:
                 topts = {"store_ancillary_features": bool(rng.random() < 0.6),
                          "store_basin_features": bool(rng.random() < 0.7)}
+                if rng.random() < (0.8 if (internal or mapped) else 0.3):
+                    # the library form of the task: the client condenses a dataset it has
+                    # opened and already looked at (DESIGN 7.5) into an HDF5 file of its own
+                    import h5py
+                    from dclab.cli import condense_dataset
+                    from vmon.gen.touch import client_touch
+                    from vmon.monitors import cli_tasks as _ct
+                    outu = tmp / "o_used.rtdc"
+                    with dclab.new_dataset(
+                            pin, enable_basins=topts["store_basin_features"]) as dsu, \
+                            h5py.File(outu, "w") as h5c:
+                        # (only features that come from basins: reading a compressed feature
+                        # stored in the file itself and then copying it with H5Ocopy through
+                        # the same handle overflows a heap buffer inside HDF5 2.0.0 -
+                        # findings/hdf5_h5ocopy_overflow, DESIGN 5)
+                        own = set(dsu.h5file["events"]) if "events" in dsu.h5file else set()
+                        touched = client_touch(
+                            rng, dsu, sorted(set(dsu.features_basin) - own), ctx, p=0.8,
+                            forms=[0, 2, 3, 3, 4, 4, 5, 6])
+                        condense_dataset(ds=dsu, h5_cond=h5c, **topts)
+                    _ct.check_condense(ctx, pin, outu, topts["store_ancillary_features"],
+                                       topts["store_basin_features"],
+                                       dict(case, form="condense_dataset(ds the client used)",
+                                            client_accesses_before=touched))
+                    ctx.count("condense_of_a_used_dataset")
                 out1 = cli.condense(path_in=pin, path_out=tmp / "o1.rtdc", ret_path=True, **topts)
                 if rng.random() < 0.6:
                     # the condensed file is processed again (the contracts on the task
